@@ -89,6 +89,20 @@ class Gen:
     def small_unsigned(self, depth, maxw=3):
         """an unsigned expression of small width (shift amounts, offsets) so results stay simulable"""
         rng = self.rng
+        r = rng.random()
+        if r < 0.2:
+            # literal amounts, biased to values whose top bits repeat (11…, 00…)
+            w = rng.randint(1, maxw)
+            v = rng.choice([(1 << w) - 1, (1 << w) - 1, rng.randint(0, (1 << w) - 1), 3 << max(0, w - 2) & ((1 << w) - 1)])
+            self.note("amount:const")
+            return Const(v, unsigned(w))
+        if r < 0.3 and maxw >= 2:
+            # an amount whose two top bits are the same net
+            cands = [s for s in self.sigs if len(s) and len(s) <= maxw - 1]
+            if cands:
+                x = rng.choice(cands)
+                self.note("amount:dup_top")
+                return Cat(x, x[-1])
         for _ in range(8):
             e = self.expr(depth)
             if not e.shape().signed and len(e) <= maxw:
